@@ -364,3 +364,30 @@ def c25_4(cx):
     cx.sites(nones, 1, "outputs(): the None arm")
     for s in nones:
         cx.only_if(ou, s, VariantIn(r"^\$1$", {"Assigned"}, desc="origin is Assigned"), "outputs() is empty only for Assigned origins")
+
+
+@ob("C23.2", ["C23"], "extend_memo_lifetime transmutes a memo borrow to the ingredient's lifetime: a memo that is not owned by this ingredient's memo table (a temporary, a memo of another table) dangles once its real owner drops it", kind="WRITERS+FLOW (unsafe-contract at every caller)")
+def c23_2(cx):
+    """Every call of extend_memo_lifetime (floor 4) passes self unchanged and a memo that is either the result of get_memo_from_table_for(self, zalsa, ..) in the same body, or (insert_memo) the allocation that was just handed to insert_memo_into_table_for(self, zalsa, id, <same pointer>, index); get_memo_from_table_for returns the table's own entry (memo_table_for(id).get(index)); the transmute in extend_memo_lifetime is applied to its argument."""
+    sites = cx.facts.call_sites_of(r"^function::IngredientImpl::<C>::extend_memo_lifetime$")
+    cx.sites(sites, 4, "extend_memo_lifetime call sites")
+    for s in sites:
+        b = s.body
+        a = cx.args(s)
+        cx.check(a[0] == "$1", "the lifetime is extended to this ingredient's own borrow", s, {"self": a[0]}, key="self " + b.path)
+        if re.search(r"^function::IngredientImpl::<C>::insert_memo$", b.path):
+            ins = cx.one_call(b, r"insert_memo_into_table_for$", "table insert in insert_memo")
+            ia = cx.args(ins)
+            leak = r"std::boxed::Box::<T, A>::leak\(std::boxed::Box::<T>::new\(\$4\)\)"
+            cx.flow(b, a[1], [r"^" + leak + r"$", r"^std::ptr::NonNull::<T>::as_ref\(.*" + leak], [], "insert_memo extends the memo it just allocated", s)
+            cx.flow(b, ia[3], [leak], [], "and that allocation is what was inserted into the table", ins)
+            cx.check(ia[0] == "$1" and ia[1] == "$2" and ia[2] == "$3" and ia[4] == "$5", "into the slot of the key asked", ins, {"args": ia}, key="insert-slot")
+            cx.order(ins, s, "the table owns the memo before its borrow is extended")
+        else:
+            cx.flow(b, a[1], [r"^function::memo::<impl function::IngredientImpl<C>>::get_memo_from_table_for\(\$1, \$2, [^()]*\)(\?|@Some\.0)$"], [r"Box::|Memo::<C>::new"], "%s extends a memo loaded from this ingredient's memo table" % b.short, s)
+    g = cx.fn(r"^function::memo::<impl function::IngredientImpl<C>>::get_memo_from_table_for$")
+    for site in cx.ret_sites(g, "Some"):
+        o = g._origin_def(site, "assign", site.node(), 0, None, ())
+        cx.flow(g, o, [r"^Option::Some\{0: (std::ptr::NonNull::<T>::as_ref\()?table::memo::MemoTableWithTypes::<'.*>::get(::<[^()]*>)?\(zalsa::Zalsa::memo_table_for(::<[^()]*>)?\(\$2, \$3\), \$4\)\?\)?\}$"], [], "get_memo_from_table_for returns the table entry for (id, index)", site)
+    e = cx.fn(r"^function::IngredientImpl::<C>::extend_memo_lifetime$")
+    cx.flow(e, e.origin_local(0), [r"^transmute\(\$2\)$"], [r"transmute\(\$1"], "extend_memo_lifetime returns its argument")
